@@ -203,6 +203,10 @@ impl BigNumber {
     }
 
     pub fn mod_exp(&self, a: &BigNumber, b: &BigNumber) -> ClResult<BigNumber> {
+        if b.bn.is_zero() {
+            return Err(err_msg!("Invalid modulus"));
+        }
+
         if b.bn.is_one() {
             return BigNumber::new();
         }
